@@ -385,6 +385,26 @@ fn gen_conflicting_slices(r: &mut Rng, dst: &Side) -> Vec<Vec<u8>> {
     out
 }
 
+/// Small reliable messages that contradict each other: one message id sent twice with different payloads while the
+/// first copy is still buffered (ids at and just above the delivery cursor of a fresh channel).
+fn gen_conflicting_small(r: &mut Rng, dst: &Side) -> Vec<Vec<u8>> {
+    let c = match dst.recv.iter().find(|c| c.ty != 0) {
+        Some(c) => c.clone(),
+        None => return vec![],
+    };
+    let id = *r.pick(&[0u64, 1, 2, 5]);
+    let mut out = vec![];
+    let mut seq = r.below(1 << 16);
+    for len in [*r.pick(&[0usize, 1, 10]), *r.pick(&[11usize, 500, 1200]), *r.pick(&[0usize, 3, 700])] {
+        seq += 1;
+        let p = Packet::SmallReliable { sequence: seq, channel_id: c.id, messages: vec![(id, Bytes::from(r.bytes(len)))] };
+        if let Ok(bb) = encode_packet(&p, 1400) {
+            out.push(bb);
+        }
+    }
+    out
+}
+
 fn gen_hostile_raw(r: &mut Rng, dst: &Side) -> Vec<u8> {
     if r.chance(1, 6) {
         return gen_raw_ack(r);
@@ -474,6 +494,14 @@ pub fn gen_pair(r: &mut Rng, g: &PairGen) -> Vec<Tree> {
                     for raw in gen_conflicting_slices(r, &sides[s]) {
                         ops.push(op_raw(sides[s].ep, &raw));
                     }
+                } else if r.chance(1, 8) {
+                    for raw in gen_conflicting_small(r, &sides[s]) {
+                        ops.push(op_raw(sides[s].ep, &raw));
+                    }
+                    for c in sides[s].recv.clone() {
+                        ops.push(op_drain(sides[s].ep, c.id));
+                    }
+                    ops.push(op_status(sides[s].ep));
                 } else if r.chance(1, 40) {
                     for raw in gen_ack_range_burst(r, &sides[s]) {
                         ops.push(op_raw(sides[s].ep, &raw));
